@@ -140,10 +140,7 @@ def find_islands(im, bkg, rms,
                 continue
 
             island = PixelIsland()
-            island.calc_bounding_box(
-                np.array(np.nan_to_num(data_box), dtype=bool),
-                offsets=[xmin, ymin]
-            )
+            island.calc_bounding_box(~island_mask, offsets=[xmin, ymin])
             island.set_mask(island_mask)
             islands.append(island)
 
